@@ -40,22 +40,22 @@ func patience() time.Duration {
 func losePatience() { atomic.StoreInt32(&impatient, 1) }
 
 type rawPeer struct {
-	conn     net.Conn
-	rd       *bufio.Reader
-	version  primitive.ProtocolVersion
-	comp     primitive.Compression
-	frames   frame.Codec   // with the negotiated body compressor (legacy layout)
+	conn      net.Conn
+	rd        *bufio.Reader
+	version   primitive.ProtocolVersion
+	comp      primitive.Compression
+	frames    frame.Codec    // with the negotiated body compressor (legacy layout)
 	rawFrames frame.RawCodec // the same, with access to header and body bytes
-	segments segment.Codec // with the negotiated payload compressor (modern layout)
-	chunk    int           // write chunk size (0: one Write per unit)
-	modern   bool
+	segments  segment.Codec  // with the negotiated payload compressor (modern layout)
+	chunk     int            // write chunk size (0: one Write per unit)
+	modern    bool
 }
 
 func newRawPeer(conn net.Conn, v primitive.ProtocolVersion, comp primitive.Compression, chunk int) *rawPeer {
 	return &rawPeer{conn: conn, rd: bufio.NewReaderSize(conn, 1<<16), version: v, comp: comp, chunk: chunk,
-		frames:   frame.NewCodecWithCompression(client.NewBodyCompressor(comp)),
+		frames:    frame.NewCodecWithCompression(client.NewBodyCompressor(comp)),
 		rawFrames: frame.NewRawCodecWithCompression(client.NewBodyCompressor(comp)),
-		segments: segment.NewCodecWithCompression(client.NewPayloadCompressor(comp))}
+		segments:  segment.NewCodecWithCompression(client.NewPayloadCompressor(comp))}
 }
 
 func (p *rawPeer) write(b []byte) error {
